@@ -1,5 +1,6 @@
 """C12 Configured operand value constraints are enforced, not silently bypassed."""
 from harness import runner, tlc, isagen
+from checks import widepart
 
 NONE = -9999
 INV = ['RejectIffInadmissible', 'WidthRange', 'FieldFits', 'Emit']
@@ -101,7 +102,7 @@ def run(chk):
                 'predefined zone and a redefined GLOBAL; sliced addresses on both sides of page boundaries. TLC checks '
                 'RejectIffInadmissible (ordered checks = declarative admissible set), WidthRange, FieldFits. For every '
                 'scenario an ISA definition and a statement are generated and assembled: accept/reject must agree and the '
-                "operand's field, extracted from the image, must carry the specified value. Non-trivial = every scenario "
+                "operand's field, extracted from the image, must carry the specified value. Widths 10..64 are covered by seeded boundary-biased records validated by spec/Trace_Pack.tla on bit strings. Non-trivial = every scenario "
                 '(distinct by parameters and value).')
     chk.assumptions = ['slice_lsb without match_address_msb is left open', 'the field is extracted from the image at the bit offset the layout prescribes (C01)']
     res = tlc.run_tlc('MC_Constraints', 'SPECIFICATION Spec\nCONSTANTS\n  Scenarios <- %s\n' % ('ScQuick' if quick else 'ScThorough')
@@ -123,4 +124,6 @@ def run(chk):
         ex = [e for e in res.emits if e['s']['kind'] == k]
         if ex:
             chk.sample({'scenario': ex[len(ex) // 2]['s'], 'admissible': ex[len(ex) // 2]['ok'], 'field': ex[len(ex) // 2]['f']})
+    # widths up to 64 bits: accept iff every value lies in -2^(w-1) .. 2^w - 1 (bit-string specification)
+    widepart.run_wide(chk, 4000 if quick else 80000, boundary_bias=0.7)
     chk.exhaustive = True
